@@ -142,6 +142,11 @@ def check(ctx):
     pj = [n for n in walk_no_nested(dsu) if isinstance(n, ast.If) and "isinstance(parent, Projection)" in unparse(n.test)]
     ok = len(pj) == 1 and eqv(pj[0].test, "isinstance(parent, Projection) and self.subset is not None")
     ctx.ob("DOM.dropna.projection-needs-subset", dsu, "DropnaFrame lets a Projection pass only when subset is given (the subset columns are then kept as additional columns)", ok, "" if ok else "dropna() without subset depends on every column: projecting first drops different rows than pandas")
+    # ---------------- rewrites in _simplify_up replace `self` in the parent by substitution, never by position
+    fsu = (ex_ if "ex_" in dir() else ctx.model.module("dask/dataframe/dask_expr/_expr.py")).func("Filter._simplify_up")
+    orb = [n for n in walk_no_nested(fsu) if isinstance(n, ast.If) and eqv(n.test, "isinstance(self.predicate, Or)")]
+    ok = len(orb) == 1 and any(eqv(r.value, "parent.substitute(self, type(self)(self.frame, result))") for r in returns(orb[0])) and not any("parent.operands[1:]" in unparse(r.value) for r in returns(orb[0]))
+    ctx.ob("ARGPOS.simplify-up.substitute", fsu, "the Or-rewrite returns parent.substitute(self, <rewritten filter>) (the parent type is not known there)", ok, "" if ok else "rebuilding as type(parent)(new, *parent.operands[1:]) puts the filter into operand 0 of ANY parent: d.b - flt becomes flt' - flt")
 
 
 VARIANTS = [
